@@ -477,7 +477,10 @@ def trace_counterexample(res, rundir):
     if not g or not os.path.exists(g):
         return None
     timeout, mem = res["_limits"]
-    cmd = res["_cmd"] + ["--trace", "--stop-on-fail", "--json-ui"]
+    cmd = res["_cmd"] + ["--trace"]
+    for x in res["failed"][:4]:  # only the obligations that failed (not an expected panic, not the reach cover)
+        cmd += ["--property", x["property"]]
+    cmd += ["--json-ui"]
     lf = open(os.path.join(rundir, res["harness"] + ".trace.log"), "wb")
     out, rc, _ = run(cmd, lf, timeout * 2, mem)
     lf.close()
@@ -504,14 +507,16 @@ def trace_counterexample(res, rundir):
     return None
 
 
-def native_build(crate, rundir):
+def native_build(crate, rundir, profiles=("dev",)):
+    """Builds the native replay binary. The dev profile (the semantics Kani models) is always
+    built; release only on request (it costs a full optimised build of the crates under test)."""
     cdir = os.path.join(HARN, crate)
     env = dict(ENV)
     tc = repo_toolchain()
     if tc:
         env["RUSTUP_TOOLCHAIN"] = tc
     ok = True
-    for prof in ("dev", "release"):
+    for prof in profiles:
         cmd = ["cargo", "build", "--offline", "--bin", "replay", "--target-dir", os.path.join(cdir, "target", "native")]
         if prof == "release":
             cmd.append("--release")
@@ -521,12 +526,14 @@ def native_build(crate, rundir):
     return ok
 
 
-def native_replay(h, hexs, timeout=120):
+def native_replay(h, hexs, timeout=120, profiles=("dev",)):
     """Runs the harness body natively. Returns dict profile -> 'panic'|'pass'|'assume'|'other:<rc>'."""
     cdir = os.path.join(HARN, h["crate"])
     out = {}
     for prof, sub in (("dev", "debug"), ("release", "release")):
         exe = os.path.join(cdir, "target", "native", sub, "replay")
+        if profiles is not None and prof not in profiles:
+            continue
         try:
             p = subprocess.run([exe, h["name"], hexs], stdout=subprocess.PIPE, stderr=subprocess.STDOUT, text=True,
                                timeout=timeout, preexec_fn=limit(8))
@@ -590,10 +597,10 @@ def main():
         h = dict(name=rp["harness"], crate=rp["crate"])
         rd = os.path.join(HARN, h["crate"], "target", "runs", f"replay-{os.getpid()}")
         os.makedirs(rd, exist_ok=True)
-        if not native_build(h["crate"], rd):
+        if not native_build(h["crate"], rd, profiles=("dev", "release")):
             log("INCONCLUSIVE native build failed")
             sys.exit(2)
-        r = native_replay(h, rp["bytes_hex"])
+        r = native_replay(h, rp["bytes_hex"], profiles=("dev", "release"))
         log(json.dumps(r, indent=1))
         rep = any(v["verdict"] == "panic" or v["verdict"].startswith("abort") for v in r.values())
         if rep:
@@ -686,9 +693,14 @@ def main():
                 continue
             built.add(h["crate"])
         nr = native_replay(h, hexs)
+        reproduced = any(v["verdict"] == "panic" or v["verdict"].startswith("abort") for v in nr.values())
+        if not reproduced or a.tier == "thorough" or os.environ.get("VERIF_REPLAY_RELEASE") == "1":
+            # the release profile (what users run) is tried when dev does not reproduce, and always in thorough
+            if native_build(h["crate"], rd, profiles=("release",)):
+                nr.update(native_replay(h, hexs, profiles=("release",)))
+                reproduced = any(v["verdict"] == "panic" or v["verdict"].startswith("abort") for v in nr.values())
         r["counterexample_hex"] = hexs
         r["native"] = {k: v["verdict"] for k, v in nr.items()}
-        reproduced = any(v["verdict"] == "panic" or v["verdict"].startswith("abort") for v in nr.values())
         rp = os.path.join(EVID, "replay", f"{prop}-{r['harness']}.json")
         json.dump(dict(property=prop, harness=r["harness"], crate=h["crate"], bytes_hex=hexs,
                        failed_checks=r["failed"], native=nr), open(rp, "w"), indent=1)
